@@ -134,7 +134,9 @@ def Entry.complete (e : Entry) : Bool :=
     decide (k < e.nparams) &&
     ((e.traced.contains k && (e.constNeeds || e.disjuncts.contains k)) || e.isStaticAt k)) &&
   e.guards.all (fun g => e.held.all (fun k => g.contains k || e.isStaticAt k)) &&
-  e.ptrFields.all (fun f => e.tracedFields.contains f)
+  e.ptrFields.all (fun f => e.tracedFields.contains f) &&
+  -- a type holding pointers in its own fields must not be skipped by the `NEEDS_TRACE` short-circuit
+  (e.ptrFields.isEmpty || e.constNeeds)
 
 def Table.complete (t : Table) : Bool :=
   t.unclassified.isEmpty &&
